@@ -32,7 +32,8 @@ class RefLib:
         return r
 
     def kind(self, label):
-        return self.u[label][0]
+        # an instance of a user-defined subclass ("Entry:sub") is an entry like any other
+        return self.u[label][0].split(":")[0]
 
     def key(self, label):
         return self.u[label][1]
@@ -64,6 +65,9 @@ class RefLib:
     def find(self, item):
         """Position of a held block.  Blocks are objects: of several duplicate wrappers with the same description the drivers
         always hand over the most recent one, so that one is meant."""
+        if item[0] == "eq":
+            # an equal but distinct object of a held block (the same text parsed twice, a block rebuilt in code)
+            item = ("blk", item[1])
         if item not in self.items:
             return -1
         if item[0] == "dup":
@@ -87,6 +91,11 @@ class RefLib:
             if i < 0:
                 return "ValueError", new.items
             del new.items[i]
+        if any(x[0] == "eq" for x in items):
+            # an object that is not held itself: refusing it (ValueError, nothing changes) and taking it for the equal held block
+            # (which then leaves the library and every view) are both within the contract
+            self.items = new.items
+            return "either", None
         self.items = new.items
         return "ok", None
 
@@ -127,7 +136,11 @@ def make_blocks(it, P: Program, universe) -> Dict[str, AObj]:
     out = {}
     m = P.module("model")
     for label, (cls, key) in universe.items():
-        c = m.classes[cls]
+        c = m.classes[cls.split(":")[0]]
+        if cls.endswith(":sub"):
+            from .props.common import synthetic_subclass
+            c = synthetic_subclass(P, c)
+            cls = cls.split(":")[0]
         S = lambda t: f"{t}:{label}"
         if cls == "Entry":
             # the first same-key entry has no fields at all, the others differ in their fields
@@ -140,8 +153,11 @@ def make_blocks(it, P: Program, universe) -> Dict[str, AObj]:
             o = it.construct(c, [], {"value": S("value"), "start_line": S("line"), "raw": S("raw")})
         elif cls in ("ExplicitComment", "ImplicitComment"):
             # a twin label ("Ct" of "C") carries the same comment text; only line and raw differ
-            o = it.construct(c, [], {"comment": f"comment:{label[:-1] if label.endswith('t') and label[:-1] in universe else label}",
-                                     "start_line": S("line"), "raw": S("raw")})
+            twin_of = label[:-1] if label[-1] in "te" and label[:-1] in universe else None
+            # a twin ("Ct") repeats the text of its sibling at another place of the file: same comment, same raw, another line;
+            # an equal twin ("Ce") is a second object with exactly the same content (hand-made separators): equal, not identical
+            line = f"line:{twin_of}" if twin_of and label.endswith("e") else S("line")
+            o = it.construct(c, [], {"comment": f"comment:{twin_of or label}", "start_line": line, "raw": f"raw:{twin_of or label}"})
         else:
             o = it.construct(c, [], {"error": ExcVal("Exception", [S("err")]), "start_line": S("line"), "raw": S("raw")})
         o.tag = label
@@ -197,6 +213,9 @@ class LibRun:
                 return blocks[item]
             if item[0] in ("blk", "inner"):
                 return blocks[item[1]]
+            if item[0] == "eq":
+                from .absint import copy_abs
+                return copy_abs(it, blocks[item[1]], True, {})
             if item not in wrappers:
                 raise Diverged(item)
             return wrappers[item]
@@ -335,7 +354,8 @@ def explore_library(P: Program, tier: str, max_len: Optional[int] = None, jobs: 
     universe = UNIVERSE_THOROUGH if tier == "thorough" else UNIVERSE_QUICK
     max_len = max_len or (3 if tier == "thorough" else 2)
     depth = 3
-    run_universe = dict(universe, Ct=("ExplicitComment", None))      # the twin is used by the targeted histories below only
+    run_universe = dict(universe, Ct=("ExplicitComment", None), Ce=("ExplicitComment", None),      # twins: used by the targeted histories only
+                        E1s=("Entry:sub", "k1"), S1s=("String:sub", "k1"))                           # instances of user-defined subclasses
     runner = LibRun(P, run_universe)
     seen = {(): []}
     frontier = [()]
@@ -370,6 +390,19 @@ def explore_library(P: Program, tier: str, max_len: Optional[int] = None, jobs: 
     tasks.append(([ad("C"), ad("P"), ad("Ct")], ("remove", (("blk", "Ct"),), False)))
     tasks.append(([ad("C"), ad("P"), ad("Ct")], ("replace", ("blk", "Ct"), "E2", None)))
     tasks.append(([ad("C"), ad("E1a"), ad("Ct")], ("replace", ("blk", "Ct"), "E1b", True)))      # fails (duplicate key): the rollback keeps the place
+    # equal but distinct objects: the one that is handed over is meant
+    tasks.append(([ad("C"), ad("P"), ad("Ce")], ("remove", (("blk", "Ce"),), False)))
+    tasks.append(([ad("C"), ad("P"), ad("Ce")], ("replace", ("blk", "Ce"), "E2", None)))
+    # instances of user-defined subclasses of Entry / String are entries / strings: registered, found, flagged like the others
+    tasks.append(([ad("E1s")], ad("E1a")))
+    tasks.append(([ad("E1a")], ad("E1s")))
+    tasks.append(([ad("S1s"), ad("P")], ad("S1a")))
+    tasks.append(([ad("E1s"), ad("P")], ("remove", (("blk", "E1s"),), False)))
+    tasks.append(([ad("E1s"), ad("P")], ("replace", ("blk", "E1s"), "E2", None)))
+    # an equal copy of a held keyed block (the same text parsed twice): either refused, or the held block goes - from every view
+    for base in ("E1a", "S1a"):
+        tasks.append(([ad(base), ad("P")], ("remove", (("eq", base),), False)))
+        tasks.append(([ad("P"), ad(base), ad("C")], ("remove", (("eq", base),), False)))
     global _RUNNER
     _RUNNER = runner
     jobs = jobs or int(os.environ.get("VERIF_JOBS") or 0) or min(16, os.cpu_count() or 1)
